@@ -51,6 +51,9 @@ def gen_cases(rng, tier):
         npos, nneg = sizes(rng, big=big), sizes(rng, big=big)
         pos = score_list(rng, npos, style) if npos <= 40 else score_list(rng, npos, "ints")
         neg = score_list(rng, nneg, style) if nneg <= 40 else score_list(rng, nneg, "ints")
+        if k % 11 == 3:     # quantised unsigned scores (0 .. 255, some above 127): uint8 / uint16 arrays
+            pos = [Fraction(v) for v in rng.sample(range(60, 256), min(max(npos, 2), 40))]
+            neg = [Fraction(v) for v in rng.sample(range(0, 200), min(max(nneg, 2), 40))]
         sc, ec = rng.choice(CONFIGS)
         allv = pos + neg
         thr = []
@@ -90,6 +93,8 @@ def run_impl(case):
     dt = np.dtype(case.get("dtype", "float64"))     # values are exactly representable in the chosen dtype
     pos = np.array([fl(x) for x in case["pos"]], dtype=float).astype(dt)
     neg = np.array([fl(x) for x in case["neg"]], dtype=float).astype(dt)
+    rs0 = np.random.RandomState(len(pos) * 17 + len(neg))       # handed over in a shuffled order; the constructor sorts
+    pos, neg = pos[rs0.permutation(len(pos))], neg[rs0.permutation(len(neg))]
     thr = np.array([fl(t) for t in case["thr"]], dtype=float)
     s = Scores(pos, neg, nb_easy_pos=case["ep"], nb_easy_neg=case["en"], score_class=case["sc"], equal_class=case["ec"])
     # the property holds for the object whatever was called on it before: run a short history first
